@@ -50,6 +50,7 @@ type lcReq struct {
 	Cached       bool       `json:"cached"`
 	StoredAfter  bool       `json:"storedAfter"`
 	FinalBranch  string     `json:"finalBranch"`
+	Seen         int        `json:"seen"`
 }
 
 type lcBehaviour struct {
@@ -72,11 +73,15 @@ type lcObsReq struct {
 	Cached       bool     `json:"cached"`
 	KnowAfter    bool     `json:"knowAfter"`
 	StoredAfter  bool     `json:"storedAfter"`
+	Seen         int      `json:"seen"`     // rate counter value the request logged, -1 = unknown
+	StartSeq     int      `json:"startSeq"` // concurrent traces: global sequence numbers of start / end
+	EndSeq       int      `json:"endSeq"`
 }
 
 type lcObsTrace struct {
-	ID   string     `json:"id"`
-	Reqs []lcObsReq `json:"reqs"`
+	ID         string     `json:"id"`
+	Concurrent bool       `json:"concurrent"`
+	Reqs       []lcObsReq `json:"reqs"`
 }
 
 var lcSubs = []string{"recv", "hash", "hit", "miss", "pass", "fetch", "error", "deliver", "log"}
@@ -108,8 +113,13 @@ func lcStmt(b string) string {
 func lcProgram(b lcBehaviour, backend string, decorate func(string) string) string {
 	var sb strings.Builder
 	sb.WriteString(backend)
+	sb.WriteString("ratecounter rc {}\n")
 	for _, s := range lcSubs {
 		fmt.Fprintf(&sb, "sub vcl_%s {\n  log \"%s\";\n", s, s)
+		if s == "recv" {
+			// shared state that outlives a request: the n-th request served sees n
+			sb.WriteString("  if (req.restarts == 0) { set req.http.X-Count = ratelimit.ratecounter_increment(rc, \"k\", 1); log \"count:\" req.http.X-Count; }\n")
+		}
 		for n, r := range b.Reqs {
 			for _, c := range r.Prog {
 				if c.Sub == s && c.Beh != "none" {
@@ -131,6 +141,9 @@ type lcReport struct {
 	Flows []struct {
 		Subroutine string `json:"subroutine"`
 	} `json:"flows"`
+	Logs []struct {
+		Message string `json:"message"`
+	} `json:"logs"`
 	Restarts int    `json:"restarts"`
 	Cached   bool   `json:"cached"`
 	Error    string `json:"error"`
@@ -263,6 +276,17 @@ func c06Replay(args []string) int {
 				}
 				o.Acts = append(o.Acts, act)
 			}
+			o.Seen = -1
+			for _, lg := range rep.Logs {
+				if strings.HasPrefix(lg.Message, "count:") {
+					if n, err := strconv.Atoi(strings.TrimPrefix(lg.Message, "count:")); err == nil {
+						o.Seen = n
+					}
+				}
+			}
+			if o.Seen != r.Seen {
+				res.Drift = append(res.Drift, map[string]any{"obs": "seen", "req": k + 1, "expected": r.Seen, "got": o.Seen})
+			}
 			o.Restarts = rep.Restarts
 			o.Cached = rep.Cached
 			o.XCache = rep.Client.Headers["x-cache"]
@@ -393,7 +417,7 @@ func c06H1(args []string) int {
 			}
 			q := lcObsReq{URL: u, Status: 0, Exact: false, KnowBefore: false, Flows: r.Flows, Acts: []string{},
 				Defined: r.Defined, Restarts: r.Restarts, XCache: r.XCache, Cached: r.Cached,
-				KnowAfter: r.Hash != "", StoredAfter: r.StoredAfter}
+				KnowAfter: r.Hash != "", StoredAfter: r.StoredAfter, Seen: -1}
 			if q.Flows == nil {
 				q.Flows = []string{}
 			}
